@@ -37,25 +37,25 @@ type joinMon struct {
 
 	in, out, rel *vrt.ChanState
 
-	segs     []int // lengths of the input segments written so far (producer)
-	written  int   // elements written
-	accepted int   // elements accepted by the discipline
-	accAt    []int64
-	next     int // next element index expected on the output
-	nslices  int
-	lastAt   int64 // time of previous delivery (or creation)
-	prevShort bool // previous slice was not maximal (untimed: must have been final)
-	outstanding bool
-	releasing   bool
-	inClosed    bool
-	outClosed   bool
-	stopped     bool // v1: Stop returned / cancel issued
-	stopReturned bool
+	segs               []int // lengths of the input segments written so far (producer)
+	written            int   // elements written
+	accepted           int   // elements accepted by the discipline
+	accAt              []int64
+	next               int // next element index expected on the output
+	nslices            int
+	lastAt             int64 // time of previous delivery (or creation)
+	prevShort          bool  // previous slice was not maximal (untimed: must have been final)
+	outstanding        bool
+	releasing          bool
+	inClosed           bool
+	outClosed          bool
+	stopped            bool // v1: Stop returned / cancel issued
+	stopReturned       bool
 	deliveredAfterStop bool
-	timeoutsFired int
-	shortSlices   int
-	heldDuringTick int
-	sizes []int
+	timeoutsFired      int
+	shortSlices        int
+	heldDuringTick     int
+	sizes              []int
 }
 
 func (m *joinMon) Hash() uint64 {
@@ -199,6 +199,9 @@ func (m *joinMon) onDeliver(w *vrt.World, ev *vrt.Event) {
 	for i, v := range s {
 		if v != m.next+i {
 			m.f.fail("C03", "output slice %d is %v but the input stream continues with element %d at offset %d (loss, duplication or reordering)", m.nslices, s, m.next+i, i)
+			if m.cfg.Disc == "unite2" {
+				m.f.fail("C11", "output slice %d is %v: the input slice holding element %d does not appear wholly and contiguously in it (input slice lengths %v)", m.nslices, s, m.next+i, m.segs)
+			}
 			break
 		}
 	}
@@ -292,9 +295,10 @@ func libResetDepth(name string) int {
 }
 
 type keptSlice struct {
-	s    []int
-	n    int
-	snap []int
+	s        []int
+	n        int
+	snap     []int
+	released bool
 }
 
 func newJoin(c Cfg, w *vrt.World) *explore.Instance {
@@ -453,6 +457,7 @@ func newJoin(c Cfg, w *vrt.World) *explore.Instance {
 					}
 					m.releasing = true
 					ad.release()
+					kept[len(kept)-1].released = true
 					continue
 				}
 				// copy mode: (ii) no sentinel, (iii) disjoint memory, then keep and scribble
@@ -468,6 +473,11 @@ func newJoin(c Cfg, w *vrt.World) *explore.Instance {
 				}
 				for i := range s {
 					s[i] = sentinel
+				}
+				// the consumer owns the slice including its spare capacity (append)
+				ext := s[:cap(s)]
+				for i := len(s); i < len(ext); i++ {
+					ext[i] = sentinel
 				}
 				kept = append(kept, keptSlice{s: s, n: len(s)})
 				for _, k := range kept {
@@ -527,6 +537,9 @@ func newJoin(c Cfg, w *vrt.World) *explore.Instance {
 				// v1: stopped or cancelled before the release signal: the delivered
 				// slice is never touched again
 				for _, k := range kept {
+					if k.released {
+						continue // after the release signal the memory is the discipline's again
+					}
 					if !equalInts(k.s[:k.n], k.snap) {
 						return fmt.Sprintf("C08: no-copy mode: a slice delivered as %v and not yet released when the discipline was stopped/cancelled now reads %v", k.snap, k.s[:k.n])
 					}
